@@ -87,6 +87,8 @@ func c10GenDebounce(r *hx.Rand, long bool) c10Input {
 	if r.Chance(1, 2) {
 		closeAt = r.Range(n/2, n+2)
 	}
+	// one script in four contains Batches racing a timer (such runs are judged by the oracle only)
+	racy := r.Chance(1, 4)
 	// clock and per-key due times as the script sees them (no delivery blocks in this family)
 	now, due := 0, map[int]int{}
 	track := func(op c10Op) {
@@ -114,7 +116,7 @@ func c10GenDebounce(r *hx.Rand, long bool) c10Input {
 			continue
 		}
 		switch x := r.Intn(20); {
-		case x < 2 && !closed:
+		case x < 2 && !closed && racy:
 			// Batch of a pending key exactly at (3 in 4) / just after its expiry, back to back
 			// with the clock step
 			k, d := -1, 0
